@@ -99,4 +99,38 @@ def joinSetup (qy : Query) (joined : Option (List FileLine)) : Outcome JoinIndex
 def runBatchT (O : Oracles) (qy : Query) (joined : Option (List FileLine)) (files : List (List FileLine)) : TraceOut :=
   runWithIndexT O qy (joinSetup qy joined) files
 
+/-! ### follow mode (`FollowFileExecutor::execute`) with the print calls recorded -/
+
+/-- `output.updated`: the engine answers an aggregate statement's line with `with_updated()`; it is what decides the
+clearing of the screen and what is passed to the printer as `single_result` -/
+def isUpdated (qy : Query) : Bool :=
+  match qy.stmt with
+  | .aggregate _ => true
+  | _ => false
+
+/-- `runFollow` (Model/ExecI.lean) with the print calls recorded; `final` of a recorded call is `output.updated` -/
+def runFollowT (O : Oracles) (qy : Query) (stopAt : Option Nat) : List Line → TraceState → TraceState
+  | [], s => s
+  | l :: rest, s =>
+    if stopAt == some s.ls.consumed then s
+    else
+      let ls := { s.ls with consumed := s.ls.consumed + 1, out := { s.ls.out with totalLines := s.ls.out.totalLines + 1 } }
+      match executeLine O qy [] true ls.es l with
+      | .ok (es, lo) =>
+        match lo.result with
+        | some r =>
+          let ls := { ls with es := es, out := { ls.out with printed := ls.out.printed ++ printResult r (isUpdated qy) } }
+          let calls := s.calls ++ [{ result := r, final := isUpdated qy }]
+          if lo.reachedLimit then { ls := { ls with stop := true }, calls := calls }
+          else runFollowT O qy stopAt rest { ls := ls, calls := calls }
+        | none => runFollowT O qy stopAt rest { s with ls := { ls with es := es } }
+      | o => { s with ls := { ls with out := failWith ls.out o, stop := true } }
+
+/-- `runFollowAll` with the print calls recorded -/
+def runFollowAllT (O : Oracles) (qy : Query) (stopAt : Option Nat) (lines : List Line) : TraceOut :=
+  if reachedLimit qy {} then {}
+  else
+    let s := runFollowT O qy stopAt lines {}
+    { out := s.ls.out, calls := s.calls }
+
 end Sqlgrep
